@@ -16,6 +16,8 @@ pub struct CatchState {
 /// A `TermLike` that records the payload of every write.
 #[derive(Clone)]
 pub struct LineCatcher {
+    /// answers for the next width() queries (consumed one per query), then `w` applies
+    pub width_script: Arc<Mutex<std::collections::VecDeque<u16>>>,
     /// the next flush fails once
     pub fail_flush: Arc<std::sync::atomic::AtomicBool>,
     pub w: Arc<std::sync::atomic::AtomicU16>,
@@ -31,7 +33,7 @@ impl std::fmt::Debug for LineCatcher {
 
 impl LineCatcher {
     pub fn new(w: u16) -> Self {
-        LineCatcher { fail_flush: Arc::new(std::sync::atomic::AtomicBool::new(false)), w: Arc::new(std::sync::atomic::AtomicU16::new(w)), h: 1000, st: Arc::new(Mutex::new(CatchState::default())) }
+        LineCatcher { width_script: Default::default(), fail_flush: Arc::new(std::sync::atomic::AtomicBool::new(false)), w: Arc::new(std::sync::atomic::AtomicU16::new(w)), h: 1000, st: Arc::new(Mutex::new(CatchState::default())) }
     }
     pub fn resize(&self, w: u16) {
         self.w.store(w, std::sync::atomic::Ordering::Relaxed);
@@ -45,6 +47,9 @@ impl LineCatcher {
 
 impl TermLike for LineCatcher {
     fn width(&self) -> u16 {
+        if let Some(w) = self.width_script.lock().unwrap_or_else(|e| e.into_inner()).pop_front() {
+            return w;
+        }
         self.w.load(std::sync::atomic::Ordering::Relaxed)
     }
     fn height(&self) -> u16 {
